@@ -54,13 +54,27 @@ Match == LET v == Visible(obs')
 
 \* reactions to try for generator g called with op(a): a probed generator's answer is the event after the call;
 \* an unprobed one is guessed from what becomes visible next
-Guess(g, op, a) ==
+RECURSIVE NextHostCall(_)
+NextHostCall(i) == IF ~Has(i) THEN 0 ELSE IF Evs[i].k = "icall" /\ Evs[i].g = 1 THEN i ELSE NextHostCall(i + 1)
+Guess0(g, op, a) ==
     IF ~CodeRuns(gens[g].st, op) \/ gens[g].kind = "single" THEN Reacts(g, op, a)
     ELSE IF op = "close" THEN {R("closed", "None")} \cup (IF Has(l) /\ Evs[l].k = "out" /\ Evs[l].op = "raise" THEN {R("raise", Evs[l].a)} ELSE {})
     ELSE {R("return", "None")}
          \cup (IF Has(l) /\ Evs[l].k = "out" /\ Evs[l].op = "yield" THEN {R("yield", Evs[l].a)} ELSE {})
          \cup (IF Has(l) /\ ((Evs[l].k = "icall" /\ Evs[l].op = "throw") \/ (Evs[l].k = "out" /\ Evs[l].op = "raise"))
                THEN {R("raise", Evs[l].a)} ELSE {})
+\* Steering only (removes guesses that cannot succeed or that duplicate another explanation):
+\*  - the host is next resumed with send(w): a head that is sent v # w cannot return now (the host would get v;
+\*    responses are distinct objects);
+\*  - a tail that returns without yielding is the same as no tail.
+Guess(g, op, a) ==
+    LET j == NextHostCall(l)
+        w == IF j # 0 /\ Evs[j].op = "send" THEN Evs[j].a ELSE ""
+    IN IF gens[g].kind = "head" /\ op = "send" /\ a # "None" /\ w # "" /\ a # w /\ CodeRuns(gens[g].st, op)
+       THEN Guess0(g, op, a) \ {R("return", "None")}
+       ELSE IF gens[g].kind = "tail" /\ gens[g].st = "fresh" /\ op = "send"
+       THEN Guess0(g, op, a) \ {R("return", "None")}
+       ELSE Guess0(g, op, a)
 Cand(g, op, a) ==
     IF HiddenG(g) THEN Guess(g, op, a)
     ELSE IF Has(l + 1) /\ Evs[l + 1].k = "iret" THEN {R(Evs[l + 1].op, Evs[l + 1].a)} ELSE {}
